@@ -143,6 +143,7 @@ class Prop(common.PropertyCheck):
                 srows.append(excelgen.sample_row('T0', 'FC002', 'FCFiles/t0.fcs', {'GFP-A': 'RFI', 'PE-Texas Red-A': 'MEF'}, 'B4', extra={'Strain': 'z', 'Dose': 2}))
             beads = pd.DataFrame(brows)
             samples = pd.DataFrame(srows)
+            samples['Remarks'] = np.nan          # a column the user has not filled in at all
             if case.get('odd_headers', case['seed'] % 2):
                 # headers as typed in a spreadsheet: a trailing blank, two blanks before "Units" (both match the documented header pattern)
                 samples = samples.rename(columns={'FL2 Units': 'FL2  Units', 'FL1 Units': 'FL1 Units '})
@@ -160,16 +161,22 @@ class Prop(common.PropertyCheck):
                 # input given relative to the working directory, in another folder; explicit relative output path
                 os.chdir(os.path.dirname(ex.dir))
                 inp_arg = os.path.join(os.path.basename(ex.dir), os.path.basename(inp))
-                outp = 'verif_rel_out_%d.xlsx' % (case['seed'] % 100000)
+                outp = 'verif_rel_out_%d_%d.xlsx' % (os.getpid(), case['seed'] % 100000)      # unique per process: checks of other checkouts may run at the same time
             try:
                 with warnings.catch_warnings():
                     warnings.simplefilter('ignore')
                     np.random.seed(9)
                     FlowCal.excel_ui.run(input_path=inp_arg, output_path=outp, verbose=False, plot=case['plot'], hist_sheet=case['hist'])
                     if case.get('again'):
-                        # the same folder processed a second time (figures and folders of the first run exist)
+                        # the same folder processed a second time (figures and folders of the first run exist); one sample file has been
+                        # replaced by a longer acquisition in between
+                        first_out = os.path.abspath(outp) if outp else os.path.join(ex.dir, case.get('inp_name', 'experiment') + '_output.xlsx')
+                        nev1 = pd.read_excel(first_out, sheet_name='Samples', engine='openpyxl').set_index('ID')['Number of Events'].get('S1')
+                        ex.write_fcs('FCFiles/s1.fcs', 'FC001', n=1500, seed=case['seed'] % 1000 + 66)
                         np.random.seed(9)
                         FlowCal.excel_ui.run(input_path=inp_arg, output_path=outp, verbose=False, plot=case['plot'], hist_sheet=case['hist'])
+                        nev2 = pd.read_excel(first_out, sheet_name='Samples', engine='openpyxl').set_index('ID')['Number of Events'].get('S1')
+                        self._again = (None if pd.isnull(nev1) else int(nev1), None if pd.isnull(nev2) else int(nev2))
                 if case.get('rel_out') and not case['default_out']:
                     outp = os.path.abspath(outp)
             finally:
@@ -193,6 +200,15 @@ class Prop(common.PropertyCheck):
             xl = pd.ExcelFile(outp, engine='openpyxl')
             res['sheets'] = list(xl.sheet_names)
             problems = []
+            # the written file is a valid workbook for a standard reader in its normal (not read-only) mode
+            try:
+                import openpyxl
+                wb = openpyxl.load_workbook(outp)
+                if list(wb.sheetnames) != res['sheets']:
+                    problems.append('openpyxl.load_workbook sees sheets %s' % list(wb.sheetnames))
+                wb.close()
+            except Exception as e:
+                problems.append('the output workbook cannot be opened with openpyxl.load_workbook(): %s: %s' % (type(e).__name__, str(e)[:80]))
             for sheet, src in (('Instruments', inst.reset_index()), ('Beads', beads), ('Samples', samples[samples['ID'].notnull()])):
                 out = pd.read_excel(outp, sheet_name=sheet, engine='openpyxl')
                 if list(out.columns[:len(src.columns)]) != list(src.columns):
@@ -229,6 +245,10 @@ class Prop(common.PropertyCheck):
                     problems.append('Beads sheet: %s of row %s is %r, the bead model fitted for that channel has parameters %r' % (c + ' Beads Params. Values', bid, got, wantp))
             if case.get('rel_out') and not case['default_out'] and os.path.exists(outp):
                 res['rel_out_ok'] = True
+            if case.get('again'):
+                n1, n2 = getattr(self, '_again', (None, None))
+                if n1 is None or n2 is None or n2 <= n1 + 300:
+                    problems.append('second run after s1.fcs was replaced by a file with 850 more events: S1 reported with %s events, %s in the first run' % (n2, n1))
             res['problems'] = problems
             res['report_channels'] = [UNITS_RE.match(c).group(1) for c in samples.columns if UNITS_RE.match(c)]
             figs = []
